@@ -77,6 +77,15 @@ gs_tables(void)
 	}
 }
 
+/* Units whose stand-in works on the logical description only (nextchar_abs) define GS_ABS_ONLY: the verifier then needs
+   the offsets but not the bytes (37 array writes at symbolic offsets cost 20 M clauses); the native replay, which runs
+   the real nextchar, always gets the bytes. */
+#if defined(GS_ABS_ONLY) && !defined(VERIF_REPLAY)
+#define GS_PUT(at, v) ((void)0)
+#else
+#define GS_PUT(at, v) (g_in[at] = (v))
+#endif
+
 /* lay out g_L[0..m) with g_k[i] splices in front of character i (and g_k[m] in front of the end of file) */
 static void
 gs_build(size_t m)
@@ -88,15 +97,17 @@ gs_build(size_t m)
 		if (i <= m) {
 			for (j = 0; j < GS_KMAX; j++) {
 				if (j < g_k[i]) {
-					g_in[w++] = '\\';
-					g_in[w++] = '\n';
+					GS_PUT(w, '\\');
+					GS_PUT(w + 1, '\n');
+					w += 2;
 				}
 			}
 		}
 		g_off[i] = w;
-		if (i < m && i < GS_LMAX)
-			g_in[w++] = (unsigned char)g_L[i];
-		else
+		if (i < m && i < GS_LMAX) {
+			GS_PUT(w, (unsigned char)g_L[i]);
+			++w;
+		} else
 			g_L[i] = LEX_EOF;
 	}
 	for (i = GS_LMAX + 1; i < GS_LMAX + 6; i++) {
